@@ -281,6 +281,12 @@ def serialiser_clauses(ctx, chk, prop, seen):
                     for a in t["args"]:
                         if a.get("k") in ("copy", "move") and a["l"] in body_locals:
                             uses.append((bid, t["span"]["line"]))
+                    # `bytes.extend_from_slice(&body)` / `bytes.append(&mut body)`: the body reaches the output through a reference
+                    if re.search(r"::(extend_from_slice|append|extend|write_all|write|push_str)$", callee_name(t) or ""):
+                        for a in t["args"][1:]:
+                            tgt = val_ref_target(du, du.val_operand(a)) if a.get("k") in ("copy", "move") else None
+                            if tgt is not None and du.canon(tgt)[0] in body_locals:
+                                uses.append((bid, t["span"]["line"]))
             if not body_locals or not uses:
                 r4.violate((prop + "|R4|%s|anchor-missing") % n, "%s: the body produced by generate_body is never used (anchor missing)" % n, fn.file, fn.span["line"], n)
             for bid, line in uses:
